@@ -20,16 +20,16 @@ Proof.
     rewrite !skipn_all2 by lia. destruct (Z.to_nat (N - N)); reflexivity.
 Qed.
 
-Theorem op_lt_spec (l : list A) (n : Z) : (0 <= n <= Z.of_nat (length l))%Z ->
+Theorem op_lt_spec (l : list A) (n : Z) : (0 <= n)%Z ->
   op_lt A l n = firstn (length l - Z.to_nat n) l.
 Proof.
   intros Hn. unfold op_lt, py_slice, norm. set (N := Z.of_nat (length l)) in *.
-  destruct (Z.ltb_spec 0 0); [lia|]. destruct (Z.ltb_spec (N - n) 0); [lia|].
-  rewrite Z.min_l by lia. rewrite Z.min_l by lia. cbn [Z.to_nat skipn]. f_equal. lia.
+  destruct (Z.ltb_spec 0 0); [lia|]. destruct (Z.ltb_spec (Z.max 0 (N - n)) 0); [lia|].
+  rewrite !Z.min_l by lia. cbn [Z.to_nat skipn]. f_equal. lia.
 Qed.
 
-(* the tail trim with n larger than the track wraps around instead of returning the empty track *)
-Theorem op_lt_refuted : exists (l : list nat) (n : Z), (Z.of_nat (length l) < n)%Z /\ op_lt nat l n <> [].
+(* the rule before the repair: more observations trimmed than the track holds gives a non-empty result *)
+Theorem op_lt_refuted : exists (l : list nat) (n : Z), (Z.of_nat (length l) < n)%Z /\ op_lt_old nat l n <> [].
 Proof. exists [0; 1; 2], 5%Z. split; [cbn; lia | vm_compute; discriminate]. Qed.
 
 (* decimation: element j of the result is element j*s of the input *)
